@@ -1963,6 +1963,27 @@ def case_failures(case, obs):
         st = steps[k] if k is not None and 0 <= k < len(steps) else {"op": "base.build", "args": {}}
         kind = "hang" if died["kind"] == "hang" else "crash"
         where = ""
+        # markers that make the class of a crash precise independently of the symbols used:
+        #   !eqn  some identifier argument is numerically equal to the row count of its table
+        #   @after-table-edits  the tables were edited by earlier steps of the sequence
+        env = obs.get("env_at_death")
+        if env is not None and st["op"] in OPS:
+            o = OPS[st["op"]]
+            eqn = False
+            for pname, pk in o.params:
+                if pk in KINDS and pname in st.get("args", {}) and st["args"][pname] is not None:
+                    n = env_count(env, KINDS[pk]["table"], o.needs)
+                    syms = st["args"][pname]
+                    for sy in (syms if KINDS[pk]["list"] else [syms]):
+                        try:
+                            eqn = eqn or (n is not None and res_id(sy, n) == n)
+                        except Exception:
+                            pass
+            if eqn:
+                suffix = "!eqn" + suffix
+        if not case["base"].get("tags") and k is not None and k > 0 and any(
+                x["op"].startswith(("table.", "tc.")) for x in steps[:k]):
+            suffix = suffix + "@after-table-edits"
         for line in died.get("report") or []:
             if line.startswith("at "):
                 where = "#" + line.split()[1]          # first tskit frame of the ASan report
@@ -2132,7 +2153,7 @@ def model_term(k, st, r, obs, case):
             m = "tree_seek_index %s %s %s" % (_alloc(T + 1), cz(T), cz(x))
         elif opn == "ts.simplify" and a.get("samples") is not None:
             ids = [res_id(s, N) for s in a["samples"]]
-            m = "simplify_entry %s %s %s" % (cbool(env["ts_edge_md"]), cz(N), clist(ids))
+            m = "simplify_entry %s %s %s" % (cbool(env["ts_edge_md"] or ts["migrations"] > 0), cz(N), clist(ids))
         elif opn == "ts.subset":
             ids = [res_id(s, N) for s in a["nodes"]]
             m = "subset_entry %s %s %s %s" % (cbool(ts["migrations"] > 0), cz(N), _alloc(N), clist(ids))
@@ -2205,7 +2226,8 @@ def model_term(k, st, r, obs, case):
                                              clist([res_id(s, n) for s in a["nodes"]]))
         elif opn == "tc.simplify" and a.get("samples") is not None:
             n = tcn["nodes"]
-            m = "simplify_entry %s %s %s" % (cbool(env["tc_edge_md"]), cz(n), clist([res_id(s, n) for s in a["samples"]]))
+            m = "simplify_entry %s %s %s" % (cbool(env["tc_edge_md"] or tcn["migrations"] > 0), cz(n),
+                                             clist([res_id(s, n) for s in a["samples"]]))
         elif opn == "tc.ibd_within":
             n = tcn["nodes"]
             m = "ibd_within_init C09_ibd_within_ge %s %s" % (cz(n), clist([res_id(s, n) for s in a["within"]]))
